@@ -163,10 +163,10 @@ def target_of_obj(path):
 class Runner:
     """drives one project: build goals, touch files, observe what ran"""
 
-    def __init__(self, decls, backend):
+    def __init__(self, decls, backend, header=''):
         self.decls = decls
         self.backend = backend
-        self.p = make_project(decls, backend)
+        self.p = make_project(decls, backend, header)
         self.log = os.path.join(self.p.root, 'stub.log')
         self.outs = {d['name']: primary_output(d) for d in decls
                      if primary_output(d)}
